@@ -51,9 +51,12 @@ pub enum TargetState {
     ClosedClean,
     ResetByE,
     ResetByPeer,
+    /// opened beyond E's concurrency limit and refused by E (RST_STREAM(REFUSED_STREAM)): frames the peer
+    /// had in flight for it are a legal race
+    RefusedByE,
 }
 
-pub const ALL_STATES: [TargetState; 6] = [TargetState::Idle, TargetState::Open, TargetState::HalfClosedRemote, TargetState::ClosedClean, TargetState::ResetByE, TargetState::ResetByPeer];
+pub const ALL_STATES: [TargetState; 7] = [TargetState::Idle, TargetState::Open, TargetState::HalfClosedRemote, TargetState::ClosedClean, TargetState::ResetByE, TargetState::ResetByPeer, TargetState::RefusedByE];
 
 /// Build the bytes of a catalogue item aimed at stream `t` (E = server, peer = client).
 /// Returns None when the item does not apply to the state.
@@ -169,7 +172,15 @@ pub fn item_bytes(peer: &mut RawPeer, name: &str, t: u32, state: TargetState, rn
             }
             let blk = peer.encode_block(&[f(":method", "GET"), f(":scheme", "https"), f(":path", "/"), f(":authority", "vp.test")]);
             raw_frame(T_HEADERS, F_END_STREAM, t, &blk[..2], &mut b);
-            ping(false, [7; 8], &mut b);
+            // RFC 9113 4.3 / 6.10: *any* other frame, of any type (also an unknown one) and on any stream
+            match rng.below(6) {
+                0 => ping(false, [7; 8], &mut b),
+                1 => window_update(0, 10, &mut b),
+                2 => settings(&[], &mut b),
+                3 => raw_frame(0xee, 0, 0, &[1, 2, 3], &mut b),
+                4 => raw_frame(0x0b + rng.below(0xf0) as u8, rng.byte(), t, &rng.bytes_upto(20), &mut b),
+                _ => priority(t + 2, false, 0, 5, &mut b),
+            }
             raw_frame(T_CONTINUATION, F_END_HEADERS, t, &blk[2..], &mut b);
             (Conn(1), false)
         }
@@ -413,21 +424,21 @@ pub fn item_bytes(peer: &mut RawPeer, name: &str, t: u32, state: TargetState, rn
             (Tolerate, false)
         }
         "legal-window-update-on-closed" => {
-            if !matches!(state, ClosedClean | ResetByE | ResetByPeer) {
+            if !matches!(state, ClosedClean | ResetByE | ResetByPeer | RefusedByE) {
                 return None;
             }
             window_update(t, 100, &mut b);
             (Tolerate, false)
         }
         "legal-rst-on-closed" => {
-            if !matches!(state, ClosedClean | ResetByE | ResetByPeer) {
+            if !matches!(state, ClosedClean | ResetByE | ResetByPeer | RefusedByE) {
                 return None;
             }
             rst(t, 8, &mut b);
             (Tolerate, true)
         }
         "legal-data-in-flight-after-e-reset" => {
-            if state != ResetByE {
+            if !matches!(state, ResetByE | RefusedByE) {
                 return None;
             }
             data(t, b"in-flight", false, None, &mut b);
@@ -435,17 +446,19 @@ pub fn item_bytes(peer: &mut RawPeer, name: &str, t: u32, state: TargetState, rn
             (Tolerate, true)
         }
         "legal-trailers-in-flight-after-e-reset" => {
-            if state != ResetByE {
+            if !matches!(state, ResetByE | RefusedByE) {
                 return None;
             }
             let blk = peer.encode_block(&[f("x-trailer", "1")]);
             headers(t, &blk, true, None, None, 0, 0, &mut b);
             // a server configured to forget reset streams at once cannot tell late trailers from a
             // new stream with a stale id: tolerance is only owed within the configured reset memory
-            (if remembers_resets { Tolerate } else { Any }, true)
+            // (refused streams are never entered into that memory: RFC 9113 5.1 lets an endpoint limit the
+            // period over which it ignores frames, h2's period for refused streams is zero)
+            (if remembers_resets && state == ResetByE { Tolerate } else { Any }, true)
         }
         "legal-window-update-after-e-reset" => {
-            if state != ResetByE {
+            if !matches!(state, ResetByE | RefusedByE) {
                 return None;
             }
             window_update(t, 1000, &mut b);
@@ -572,6 +585,10 @@ pub fn gen_catalogue(seed: u64) -> CatalogueScenario {
     cfg.max_frame_size = *rng.pick(&[None, None, Some(16_384u32), Some(20_000), Some(60_000)]);
     cfg.reset_stream_duration_s = *rng.pick(&[None, Some(0), Some(3600)]);
     cfg.max_concurrent_reset_streams = *rng.pick(&[None, None, Some(0usize), Some(1)]);
+    if state == TargetState::RefusedByE {
+        // the witness and one filler occupy both slots
+        cfg.max_concurrent_streams = Some(2);
+    }
     CatalogueScenario {
         seed,
         item,
@@ -606,6 +623,12 @@ async fn catalogue_peer(mut p: RawPeer, sc: CatalogueScenario, rep: Rc<RefCell<C
     p.open_request(w, "POST", "/witness", &[f("x-vp-id", "1")], false).await;
     p.send_data_legal(w, 2, 0, sc.witness_body / 2, false).await;
     // target stream into its state class (spec idx 2 = plain; 3 = reset by E)
+    if sc.state == TargetState::RefusedByE {
+        // a complete request whose handler answers only when the gate opens keeps the second slot busy
+        let filler = p.alloc_sid();
+        p.open_request(filler, "GET", "/filler", &[f("x-vp-id", "4")], true).await;
+        p.settle_world(100_000).await;
+    }
     let t = match sc.state {
         TargetState::Idle => p.peek_sid(),
         _ => p.alloc_sid(),
@@ -633,6 +656,10 @@ async fn catalogue_peer(mut p: RawPeer, sc: CatalogueScenario, rep: Rc<RefCell<C
         TargetState::ResetByE => {
             p.open_request(t, "POST", "/target", &[f("x-vp-id", "3")], false).await;
             reached = p.until(|s| s.streams.get(&t).map(|x| x.rst.is_some()).unwrap_or(false)).await;
+        }
+        TargetState::RefusedByE => {
+            p.open_request(t, "POST", "/target", &[f("x-vp-id", "4")], false).await;
+            reached = p.until(|s| s.streams.get(&t).map(|x| x.rst.is_some()).unwrap_or(false)).await && p.sh.streams.get(&t).and_then(|x| x.rst) == Some(7);
         }
         TargetState::ResetByPeer => {
             p.open_request(t, "POST", "/target", &[f("x-vp-id", "4")], false).await;
@@ -683,6 +710,10 @@ async fn catalogue_peer(mut p: RawPeer, sc: CatalogueScenario, rep: Rc<RefCell<C
     p.send(&bytes).await;
     p.settle_world(100_000).await;
     sim::open_gate();
+    if sc.state == TargetState::RefusedByE {
+        // let the filler finish so that the probe finds a free slot
+        p.settle_world(100_000).await;
+    }
     // probe: a fresh request must still be served after stream-level reactions / legal items
     let conn_dead = p.sh.eof_from_e || !p.sh.e_goaways.is_empty();
     if !conn_dead {
@@ -931,6 +962,7 @@ fn judge_catalogue(view: &View, sc: &CatalogueScenario, r: &CatReport, viol: &mu
             TargetState::Open | TargetState::HalfClosedRemote => accepted && !e_submitted_end && !e_rst_before,
             TargetState::ClosedClean => e_es_before && !e_rst_before,
             TargetState::ResetByE => e_rst_before,
+            TargetState::RefusedByE => e_rst_before && !accepted,
             TargetState::ResetByPeer => !e_rst_before,
         };
         if !ok {
@@ -1009,7 +1041,7 @@ fn judge_catalogue(view: &View, sc: &CatalogueScenario, r: &CatReport, viol: &mu
             if let Some(c) = error_goaway {
                 viol.push(Violation::new("C09", format!("legal-traffic-answered-with-connection-error:{}", sc.item), format!("{} (code {})", describe(), c)));
             } else {
-                let bad_rst: Vec<_> = rst_on.iter().filter(|(s, _)| !(**s == r.target && (r.ends_target || matches!(sc.state, TargetState::ResetByE | TargetState::ResetByPeer | TargetState::ClosedClean)))).collect();
+                let bad_rst: Vec<_> = rst_on.iter().filter(|(s, _)| !(**s == r.target && (r.ends_target || matches!(sc.state, TargetState::ResetByE | TargetState::RefusedByE | TargetState::ResetByPeer | TargetState::ClosedClean)))).collect();
                 if !bad_rst.is_empty() {
                     viol.push(Violation::new("C09", format!("legal-traffic-answered-with-stream-error:{}", sc.item), describe()));
                 }
